@@ -143,4 +143,4 @@ Definition prop_b (c : case) : bool :=
   oracle_run (mkCView (insts (c_init c)) (trading (c_init c)) None) (c_steps c).
 
 Definition judge (c : case) : N :=
-  if valid_case c then judge_code (corr_b c) (prop_b c) 0 else 0%N.
+  if valid_case c && negb (degenerate_b c) then judge_code (corr_b c) (prop_b c) 0 else 0%N.
